@@ -78,7 +78,7 @@ func (w *world) fixtures() {
 			}
 			c.Nontrivial("fixture/" + name)
 			c.Outcome("gpg fixture accepted")
-		c.Add("gpg_fixture_"+kind, 1)
+			c.Add("gpg_fixture_"+kind, 1)
 			return
 		}
 		if kind == "encasc" {
